@@ -2,10 +2,11 @@
 # tools_mutant.sh <patch.diff> <ID>[,<ID>...] [tier]   apply a seeded change to /repo, run the checks, undo it
 set -u
 patch=$1; ids=$2; tier=${3:-quick}
+ROOT=$(cd "$(dirname "$0")" && pwd)
 git -C /repo diff --quiet || { echo "/repo is dirty"; exit 2; }
 git -C /repo apply "$patch" || { echo "patch does not apply"; exit 2; }
 trap 'git -C /repo checkout -- . ; git -C /repo clean -fdq' EXIT
 for id in ${ids//,/ }; do
-  out=$(cd /verif && VERIF_EVIDENCE_DIR=/verif/tmp/evidence-mutant timeout 1800 ./run.sh $id $tier 2>&1); rc=$?
+  out=$(cd "$ROOT" && VERIF_EVIDENCE_DIR="$ROOT/tmp/evidence-mutant" timeout 1800 ./run.sh $id $tier 2>&1); rc=$?
   echo "== $id rc=$rc :: $(echo "$out" | grep -m1 -E 'VIOLATION|BUILD-FAILED' ) :: $(echo "$out" | grep -m1 'detail:' | cut -c1-300)"
 done
